@@ -3,6 +3,8 @@ package main
 import (
 	"fmt"
 	"go/types"
+	"sort"
+	"strings"
 	"sync"
 
 	"golang.org/x/tools/go/ssa"
@@ -150,11 +152,27 @@ func heldName(h int8) string {
 
 // ---- C09: no API call can block forever ---------------------------------------------
 
+type lockEdge struct {
+	from, to, fn, where, stack, root string
+}
+
 type lockListener struct {
-	p    *Prog
-	r    *Result
-	root *ssa.Function
-	val  Valuation
+	p     *Prog
+	r     *Result
+	root  *ssa.Function
+	val   Valuation
+	edges *[]lockEdge
+}
+
+func (l *lockListener) edge(from, to, fn, where, stack string) {
+	reportMu.Lock()
+	defer reportMu.Unlock()
+	for _, e := range *l.edges {
+		if e.from == from && e.to == to && e.fn == fn {
+			return
+		}
+	}
+	*l.edges = append(*l.edges, lockEdge{from, to, fn, where, stack, FuncName(l.root)})
 }
 
 func (l *lockListener) rep(rule, fn, construct, status, detail, where string, trace []string) {
@@ -192,20 +210,11 @@ func (l *lockListener) Event(x *Explorer, st *State, ev *Event) {
 			} else {
 				l.rep("C09.R1", fn, construct, Discharged, "", where, nil)
 			}
-			// R3: order H < T < S < M
-			rank := map[string]int{"H": 0, "T": 1, "S": 2, "M": 3}
-			bad := ""
-			if lk.M > 0 && rank[ev.LockClass] < 3 {
-				bad = "M"
-			} else if lk.S > 0 && rank[ev.LockClass] < 2 {
-				bad = "S"
-			} else if lk.T > 0 && rank[ev.LockClass] < 1 {
-				bad = "T"
-			}
-			if bad != "" {
-				l.rep("C09.R3", fn, construct, Violated, fmt.Sprintf("lock %s acquired while holding %s: violates the order H < T < S < M", ev.LockClass, bad), where, []string{"entry " + FuncName(l.root), stack})
-			} else {
-				l.rep("C09.R3", fn, construct, Discharged, "", where, nil)
+			// R3: record order edges held -> acquired; cycles are judged after the exploration
+			for cls, n := range map[string]int8{"H": lk.H, "T": lk.T, "S": lk.S, "M": lk.M} {
+				if n > 0 {
+					l.edge(cls, ev.LockClass, fn, where, stack)
+				}
 			}
 		} else {
 			// R2: release without a matching acquire
@@ -269,7 +278,7 @@ func (l *lockListener) End(x *Explorer, st *State, reason string) {}
 func checkC09(p *Prog, r *Result, tier string) {
 	r.Rule("C09.R1", "no call path from an exported entry point or spawned goroutine acquires a lock (handle lock, store lock, map lock) that the same goroutine already holds", 20)
 	r.Rule("C09.R2", "every acquire is released on all non-panicking paths of the entry point, in the matching mode; no release without acquire", 40)
-	r.Rule("C09.R3", "lock classes are acquired in the order handle < (table mutex) < store < map; no two locks of one class are nested", 20)
+	r.Rule("C09.R3", "the graph held-class -> acquired-class over {handle lock H, other package mutexes T, store lock S, map lock M} is acyclic on all call paths; two locks of one class are never nested", 20)
 	r.Rule("C09.R4", "no channel operation, select, sleep or Wait while the handle lock is held", 3)
 	r.Rule("C09.R5", "the exported Lock/RLock/Unlock/RUnlock wrappers contain nothing but the sync call on the handle lock", 4)
 	r.NotDecided = []string{"termination of loops and recursion", "blocking inside OS calls", "user hooks (Transform/Validate/Initialize/UUID) are assumed to return and not to call back into the handle"}
@@ -280,9 +289,45 @@ func checkC09(p *Prog, r *Result, tier string) {
 		jobs = append(jobs, exploreJob{f, Valuation{}})
 		r.Entries = append(r.Entries, FuncName(f))
 	}
+	var edges []lockEdge
 	exploreAll(p, c, jobs, EffSet{}, r, func(j exploreJob) Listener {
-		return &lockListener{p: p, r: r, root: j.root, val: j.val}
+		return &lockListener{p: p, r: r, root: j.root, val: j.val, edges: &edges}
 	}, nil)
+	// R3: the order graph over lock classes must be acyclic (same-class nesting is a self loop)
+	succ := map[string]map[string]bool{}
+	for _, e := range edges {
+		if succ[e.from] == nil {
+			succ[e.from] = map[string]bool{}
+		}
+		succ[e.from][e.to] = true
+	}
+	var reach func(from, to string, seen map[string]bool) bool
+	reach = func(from, to string, seen map[string]bool) bool {
+		if from == to {
+			return true
+		}
+		if seen[from] {
+			return false
+		}
+		seen[from] = true
+		for n := range succ[from] {
+			if reach(n, to, seen) {
+				return true
+			}
+		}
+		return false
+	}
+	var order []string
+	for _, e := range edges {
+		construct := e.from + " -> " + e.to
+		if reach(e.to, e.from, map[string]bool{}) {
+			r.Report("C09.R3", e.fn, construct, Violated, fmt.Sprintf("lock class %s is acquired while %s is held, and %s can also be acquired while %s is held: cyclic lock order", e.to, e.from, e.from, e.to), e.where, []string{"entry " + e.root, e.stack}, true)
+		} else {
+			r.Report("C09.R3", e.fn, construct, Discharged, "", e.where, nil, true)
+		}
+		order = append(order, construct)
+	}
+	r.Extra["lock_order_edges"] = sortedKeys(func() map[string]bool { m := map[string]bool{}; for _, o := range order { m[o] = true }; return m }())
 	// R5
 	for _, name := range []string{"Lock", "RLock", "Unlock", "RUnlock"} {
 		fn := p.FuncByName("DB." + name)
@@ -306,3 +351,216 @@ func checkC09(p *Prog, r *Result, tier string) {
 func init() { register("C09", checkC09) }
 
 var _ = types.Universe
+
+// ---- C08: race freedom (lockset analysis over all call paths) ---------------------------
+
+// accessCtx is one (function, mode, lock state) context in which a shared field is touched.
+type accessCtx struct {
+	fn    string
+	write bool
+	lk    LockState
+	where string
+	stack string
+	root  string
+}
+
+type guardCollector struct {
+	mu  sync.Mutex
+	acc map[string]map[string]*accessCtx // field key -> ctx key -> ctx
+}
+
+type guardListener struct {
+	p    *Prog
+	r    *Result
+	root *ssa.Function
+	g    *guardCollector
+}
+
+func (l *guardListener) rep(rule, fn, construct, status, detail, where string, trace []string) {
+	reportMu.Lock()
+	defer reportMu.Unlock()
+	l.r.Report(rule, fn, construct, status, detail, where, trace, true)
+}
+
+func (l *guardListener) Event(x *Explorer, st *State, ev *Event) {
+	a := l.p.A
+	switch ev.Kind {
+	case EvAccess:
+		if ev.Tags&(TFresh|TDecoded) != 0 {
+			return // object allocated or decoded in this call tree, not yet published
+		}
+		name := ""
+		switch {
+		case ev.Struct != nil && ev.Field != nil:
+			name = ev.Struct.Obj().Name() + "." + ev.Field.Name()
+		case ev.Tags&TLive != 0:
+			name = "(alias of live index memory)"
+		case ev.Tags&(TCache|TPend) != 0:
+			name = "(alias of store memory)"
+		case ev.Tags&TTbl != 0:
+			name = "(alias of schema table)"
+		default:
+			return
+		}
+		isMapOp := false
+		switch ev.Instr.(type) {
+		case *ssa.MapUpdate, *ssa.Lookup, *ssa.Range:
+			isMapOp = true
+		case *ssa.Call:
+			isMapOp = true // delete / len / append / copy on a container
+		}
+		switch {
+		case ev.Struct == a.DB:
+			if ev.Field == a.DBSchemas && !isMapOp {
+				return // loading the map header, set once in Open
+			}
+		case ev.Struct == a.Schema, ev.Struct == a.Async, ev.Struct == a.ObjIndex, ev.Struct == a.FieldIndex, ev.Struct == a.IndexedField, ev.Struct == nil:
+		case ev.Struct == a.ObjectStore, ev.Struct == a.ObjectMap:
+			if ev.Field != a.StoreMap && ev.Field != a.InnerMap {
+				return // the embedded mutex
+			}
+			if !isMapOp {
+				return // map header, set once at construction
+			}
+			// instances: cache and pending stores never alias
+			switch {
+			case ev.Tags&TPend != 0 && ev.Tags&TCache == 0:
+				name += "[pending]"
+			case ev.Tags&TCache != 0 && ev.Tags&TPend == 0:
+				name += "[cache]"
+			}
+		default:
+			return // Search, iterator, descriptors: owned by the calling goroutine
+		}
+		c := &accessCtx{fn: FuncName(st.top().fn), write: ev.Write, lk: st.lk, where: l.p.Pos(ev.Instr.Pos()), stack: x.Stack(st, ev.Instr.Pos()), root: FuncName(l.root)}
+		ck := fmt.Sprintf("%s|%v|%v", c.fn, c.write, c.lk)
+		l.g.mu.Lock()
+		m := l.g.acc[name]
+		if m == nil {
+			m = map[string]*accessCtx{}
+			l.g.acc[name] = m
+		}
+		if _, ok := m[ck]; !ok {
+			m[ck] = c
+		}
+		l.g.mu.Unlock()
+	case EvEffect:
+		switch ev.Eff {
+		case EFsWObj, EFsWSchema, EFsWOther, EFsRmObj, EFsRmSchema, EFsRmOther, EFsRmTree, EFsRename:
+			fn := FuncName(st.top().fn)
+			construct := ev.Eff.String()
+			if st.lk.H == 2 {
+				l.rep("C08.R2", fn, construct, Discharged, "", l.p.Pos(ev.Instr.Pos()), nil)
+			} else {
+				l.rep("C08.R2", fn, construct, Violated, fmt.Sprintf("file mutation %s without the handle lock in write mode (held=%s)", ev.Eff, heldName(st.lk.H)), l.p.Pos(ev.Instr.Pos()), []string{"entry " + FuncName(l.root), x.Stack(st, ev.Instr.Pos())})
+			}
+		}
+	}
+}
+
+func (l *guardListener) Return(x *Explorer, st *State, ret *ssa.Return, res []Fact) {}
+func (l *guardListener) End(x *Explorer, st *State, reason string)               {}
+
+// excludes: can two goroutines be in contexts a and b at the same time? (false = they exclude each other)
+func excludes(field string, a, b *accessCtx) bool {
+	// handle lock: writer vs anyone holding it
+	if a.lk.H == 2 && b.lk.H >= 1 || b.lk.H == 2 && a.lk.H >= 1 {
+		return true
+	}
+	// a dedicated package mutex held on both sides
+	if a.lk.T > 0 && b.lk.T > 0 {
+		return true
+	}
+	// the container's own lock (store lock for the store map, map lock for an inner map)
+	if strings.HasPrefix(field, "objectStore.") {
+		if a.lk.SW && b.lk.S > 0 || b.lk.SW && a.lk.S > 0 {
+			return true
+		}
+	}
+	if strings.HasPrefix(field, "objectMap.") {
+		if a.lk.MW && b.lk.M > 0 || b.lk.MW && a.lk.M > 0 {
+			return true
+		}
+	}
+	return false
+}
+
+func protection(c *accessCtx) int {
+	return int(c.lk.H)*100 + int(c.lk.T)*10 + int(c.lk.S) + int(c.lk.M)
+}
+
+func lkString(lk LockState) string {
+	return fmt.Sprintf("H=%s T=%d S=%d%s M=%d%s", heldName(lk.H), lk.T, lk.S, map[bool]string{true: "w", false: ""}[lk.SW], lk.M, map[bool]string{true: "w", false: ""}[lk.MW])
+}
+
+func checkC08(p *Prog, r *Result, tier string) {
+	r.Rule("C08.R1", "lockset rule over all call paths: for every field of shared index, schema, settings, schema-table, cache or pending-store memory, every write context and every other context touching the same field exclude each other (handle lock writer/any holder, a common package mutex, or the container's own lock); objects allocated or decoded in the current call tree are exempt until published; fields never written after publication may be read freely", 60)
+	r.Rule("C08.R2", "every file mutation (write, remove, rename) happens under the handle lock in write mode", 4)
+	r.NotDecided = []string{"linearizability proper (results equal to some sequential order): needs histories and a sequential oracle; race freedom is necessary for it, not sufficient", "a *Schema handed out by DB.Schema is a live pointer: direct field access by the caller is outside the handle API"}
+	r.Assumptions = []string{"Search and iterator values are owned by the calling goroutine", "user hook implementations do not touch the handle", "a store/map lock held while its map is accessed is the lock of that same instance (methods lock their receiver)"}
+	c := computeClosures(p)
+	var jobs []exploreJob
+	for _, f := range apiRoots(p) {
+		jobs = append(jobs, exploreJob{f, Valuation{}})
+		r.Entries = append(r.Entries, FuncName(f))
+	}
+	g := &guardCollector{acc: map[string]map[string]*accessCtx{}}
+	exploreAll(p, c, jobs, EffSet{}, r, func(j exploreJob) Listener {
+		return &guardListener{p: p, r: r, root: j.root, g: g}
+	}, nil)
+	var fields []string
+	for f := range g.acc {
+		fields = append(fields, f)
+	}
+	sort.Strings(fields)
+	table := map[string][]string{}
+	for _, field := range fields {
+		var ctxs []*accessCtx
+		for _, c := range g.acc[field] {
+			ctxs = append(ctxs, c)
+		}
+		sort.Slice(ctxs, func(i, j int) bool {
+			if ctxs[i].fn != ctxs[j].fn {
+				return ctxs[i].fn < ctxs[j].fn
+			}
+			return fmt.Sprint(ctxs[i].write, ctxs[i].lk) < fmt.Sprint(ctxs[j].write, ctxs[j].lk)
+		})
+		for _, a := range ctxs {
+			mode := "r"
+			if a.write {
+				mode = "w"
+			}
+			table[field] = append(table[field], fmt.Sprintf("%s %s {%s}", a.fn, mode, lkString(a.lk)))
+			// find a conflicting partner: (a write, b any) or (a any, b write) that do not exclude each other
+			var partner *accessCtx
+			for _, b := range ctxs {
+				if !a.write && !b.write {
+					continue
+				}
+				if excludes(field, a, b) {
+					continue
+				}
+				// blame the less protected side (both if equal)
+				if protection(a) <= protection(b) {
+					partner = b
+					break
+				}
+			}
+			construct := field + ":" + mode
+			if partner == nil {
+				r.Report("C08.R1", a.fn, construct, Discharged, "", a.where, nil, true)
+			} else {
+				pm := "read"
+				if partner.write {
+					pm = "write"
+				}
+				r.Report("C08.R1", a.fn, construct, Violated,
+					fmt.Sprintf("%s of %s with locks {%s} can run concurrently with the %s in %s holding {%s}: nothing excludes the two", map[bool]string{true: "write", false: "read"}[a.write], field, lkString(a.lk), pm, partner.fn, lkString(partner.lk)),
+					a.where, []string{"entry " + a.root, a.stack, "concurrent with: entry " + partner.root, partner.stack}, true)
+			}
+		}
+	}
+	r.Extra["guard_table_derived"] = table
+}
+
+func init() { register("C08", checkC08) }
